@@ -58,9 +58,20 @@ theorem storage_changes_only_on_commit (W : Nat) (m m1 : M V) (acts : List (Act 
       | write k f => simp only [runActs]; rw [ih, write_store]
   exact ⟨hs, by rw [this, hs], by simp only [finish]; rw [this, hs]⟩
 
-/-- commit copies exactly the cells written in this operation (the dirty ones) and nothing else -/
-theorem commit_copies_exactly_dirty (m : M V) (k : Nat) :
-    (commit m).store k = if dirty m k then m.cells k else m.store k := rfl
+/-- commit copies exactly the dirty cells, so committing twice is committing once, and after a commit every dirty
+buffer cell and its storage cell coincide (whole cells, revision included): a later read through the buffer and a
+direct read of storage agree -/
+theorem commit_idempotent_and_synced (m : M V) :
+    (commit (commit m)).store = (commit m).store ∧
+    ∀ k, dirty m k = true → (commit m).store k = (commit m).cells k ∧ read (commit m) k = ((commit m).store k).val := by
+  constructor
+  · funext k
+    simp only [commit, dirty]
+    by_cases h : ((m.cells k).rev == m.rev) = true <;> simp [h]
+  · intro k hk
+    have hd : dirty (commit m) k = true := hk
+    refine ⟨by simp [commit, hk], ?_⟩
+    unfold Rev.read; rw [hd]; simp [commit, hk]
 
 /-- inside an operation a cell is dirty iff the operation wrote it -/
 theorem dirty_iff_written (W : Nat) (m m1 : M V) (acts : List (Act V)) (hi : Inv m)
@@ -213,8 +224,16 @@ theorem vi_history_refines (W : Nat) (txs : List (List (VAct V) × End)) (v v' :
 
 /-! ### `RevertiblePosition` (private copy, written back on commit) -/
 
-theorem pos_read_sees_own_writes {P : Type} (b : PB P) (f : P → P) :
-    pbRead (pbWrite b f) = f (pbRead b) := rfl
+/-- inside one position operation a read returns the stored state with ALL the operation's writes applied in
+order (reads see own writes, over any list of writes) -/
+theorem pos_read_sees_own_writes {P : Type} (b : PB P) (fs : List (P → P)) :
+    pbRead (fs.foldl pbWrite (pbBegin b)) = fs.foldl (fun x f => f x) b.stored := by
+  have : ∀ (fs : List (P → P)) (x : PB P), (fs.foldl pbWrite x).loc = fs.foldl (fun y f => f y) x.loc := by
+    intro fs
+    induction fs with
+    | nil => intro x; rfl
+    | cons f fs ih => intro x; simp only [List.foldl_cons]; rw [ih]; rfl
+  exact this fs (pbBegin b)
 
 /-- a new operation starts from the STORED position state whatever an abandoned one wrote -/
 theorem pos_ignores_abandoned {P : Type} (b : PB P) (fs : List (P → P)) :
@@ -241,8 +260,17 @@ theorem pos_commit_exact {P : Type} (b : PB P) (fs : List (P → P)) :
 
 /-- `RevertiblePosition::commit` commits the market buffer and the position together; dropping it
 commits neither -/
-theorem pos_commit_is_joint {P : Type} (m : M V) (b : PB P) :
-    (posCommit (m, b)).1 = commit m ∧ (posCommit (m, b)).2.stored = b.loc := ⟨rfl, rfl⟩
+theorem pos_commit_is_joint {P : Type} (W : Nat) (m m1 : M V) (acts : List (Act V)) (b : PB P) (fs : List (P → P))
+    (hi : Inv m) (hb : begin W m = some m1) :
+    -- after any market reads/writes and any position writes of one operation, `commit` stores BOTH …
+    abs (posCommit ((runActs m1 acts).1, fs.foldl pbWrite (pbBegin b))).1 = (specTx (abs m) ⟨acts, .commit⟩).1 ∧
+    (posCommit ((runActs m1 acts).1, fs.foldl pbWrite (pbBegin b))).2.stored = fs.foldl (fun x f => f x) b.stored ∧
+    -- … and dropping the operation stores NEITHER
+    (runActs m1 acts).1.store = m.store ∧ (fs.foldl pbWrite (pbBegin b)).stored = b.stored := by
+  have htx : runTx W m ⟨acts, .commit⟩ = some (commit (runActs m1 acts).1, (runActs m1 acts).2) := by
+    simp [runTx, hb, finish]
+  refine ⟨(commit_applies_exact_writes W m _ ⟨acts, .commit⟩ _ hi htx).2.1, (pos_commit_exact b fs).1,
+    (storage_changes_only_on_commit W m m1 acts hb).2.1, (pos_ignores_abandoned b fs).2⟩
 
 /-! ### `RevertibleLiquidityMarket` (mint/burn deferred to commit) -/
 
@@ -304,6 +332,7 @@ theorem lm_requests (acts : List LAct) : ∀ (l : LM), LMInv l →
 /-- `total_supply` seen inside the operation = real supply + pending mints − pending burns, and
 that is exactly the mint's supply after commit (MintTo then Burn, both within `u64`, no underflow);
 an operation without requests issues no CPI, an abandoned one none at all (only `commit` does) -/
+-- (kept for its callers; the subtraction-free statement to cite is `lm_commit_supply_exact` / `lm_history_commit_exact` below)
 theorem lm_commit_supply (l : LM) (h : LMInv l) :
     lmCommitSupply l = lmTotalSupply l ∧ lmCommitSupply l < U64 ∧
     lmCommitCpis (lmBegin l.supply) = [] := by
@@ -315,9 +344,28 @@ theorem lm_commit_supply (l : LM) (h : LMInv l) :
 
 /-- the CPIs of a commit carry the accumulated amounts: one `MintTo(Σ mints)` (if non-zero) followed
 by one `Burn(Σ burns)` (if non-zero) -/
-theorem lm_commit_cpis (l : LM) :
-    lmCommitCpis l = (if l.toMint ≠ 0 then [Cpi.mintTo l.toMint] else []) ++
-                     (if l.toBurn ≠ 0 then [Cpi.burn l.toBurn] else []) := rfl
+theorem lm_commit_cpis (supply : Nat) (acts : List LAct) (hs : supply < U64) :
+    -- for ANY list of mint/burn requests of one operation (accepted or rejected): at most one MintTo followed by at
+    -- most one Burn, never a zero amount, and replaying them on the real supply gives what `total_supply` showed
+    (lmCommitCpis (lmRun (lmBegin supply) acts)).length ≤ 2 ∧
+    (∀ c ∈ lmCommitCpis (lmRun (lmBegin supply) acts), c ≠ Cpi.mintTo 0 ∧ c ≠ Cpi.burn 0) ∧
+    (lmCommitCpis (lmRun (lmBegin supply) acts)).foldl applyCpi supply = lmTotalSupply (lmRun (lmBegin supply) acts) ∧
+    (lmRun (lmBegin supply) acts).supply = supply := by
+  have hinv : LMInv (lmBegin supply) := ⟨by simpa [lmBegin] using hs, by simp [lmBegin]⟩
+  obtain ⟨hI, hsup⟩ := lm_requests acts (lmBegin supply) hinv
+  have hsup' : (lmRun (lmBegin supply) acts).supply = supply := hsup
+  have hc := (lm_commit_supply _ hI).1
+  unfold lmCommitSupply at hc
+  rw [hsup'] at hc
+  refine ⟨?_, ?_, hc, hsup'⟩
+  · unfold lmCommitCpis; split <;> split <;> simp
+  · intro c hcmem
+    unfold lmCommitCpis at hcmem
+    by_cases hm : (lmRun (lmBegin supply) acts).toMint = 0 <;> by_cases hb : (lmRun (lmBegin supply) acts).toBurn = 0 <;>
+      simp [hm, hb] at hcmem
+    · subst hcmem; simp [hb]
+    · subst hcmem; simp [hm]
+    · rcases hcmem with rfl | rfl <;> simp [hm, hb]
 
 /-! ### non-vacuity: payload `Int`, everything 0 initially, counter 1 as after `init` -/
 
@@ -420,6 +468,28 @@ theorem lm_commit_supply_exact (l : LM) (h : LMInv l) :
 
 example : lmCommitSupply ⟨100, 12, 30⟩ + 30 = 100 + 12 :=
   (lm_commit_supply_exact ⟨100, 12, 30⟩ (by simp [LMInv, U64])).2.2.1
+
+/-- THE LIQUIDITY-MARKET COMMIT, for every request history of one operation, subtraction-free: starting an operation on a
+supply below 2^64, after ANY list of mint/burn requests (accepted or rejected) the invariant holds, so the `Burn` CPI never
+exceeds what it is applied to, the `MintTo` keeps the supply within `u64`, and the committed supply plus the burnt amount
+is exactly the old supply plus the minted amount. The state `⟨10, 0, 30⟩` of the witness below is NOT reachable: `burn`
+rejects a request that would make `to_burn` exceed the supply (`lm_burn_spec`), which the native harness replays
+(`corpus/C21/c21-clocks-only.ops`: `burn 1000001` on a supply of 1000000 answers `err`, then `600000`, `400000` are accepted and
+`burn 1` is rejected again). -/
+theorem lm_history_commit_exact (supply : Nat) (acts : List LAct) (hs : supply < U64) :
+    LMInv (lmRun (lmBegin supply) acts) ∧
+    (lmRun (lmBegin supply) acts).toBurn ≤ supply + (lmRun (lmBegin supply) acts).toMint ∧
+    supply + (lmRun (lmBegin supply) acts).toMint < U64 ∧
+    lmCommitSupply (lmRun (lmBegin supply) acts) + (lmRun (lmBegin supply) acts).toBurn = supply + (lmRun (lmBegin supply) acts).toMint := by
+  have hinv : LMInv (lmBegin supply) := ⟨by simpa [lmBegin] using hs, by simp [lmBegin]⟩
+  obtain ⟨hI, hsup⟩ := lm_requests acts (lmBegin supply) hinv
+  have hsup' : (lmRun (lmBegin supply) acts).supply = supply := hsup
+  obtain ⟨e1, e2, e3, _⟩ := lm_commit_supply_exact _ hI
+  rw [hsup'] at e1 e2 e3
+  exact ⟨hI, e1, e2, e3⟩
+
+example : lmCommitSupply (lmRun (lmBegin 100) [.mint 5, .burn 30, .burn 80, .mint 7]) + 30 = 100 + 12 :=
+  (lm_history_commit_exact 100 [.mint 5, .burn 30, .burn 80, .mint 7] (by simp [U64])).2.2.2
 
 /-- AUDIT (strength): without the invariant the truncated model arithmetic DOES hide an underflow —
 `lm_commit_supply`'s hypothesis `LMInv` is necessary, not decorative -/
